@@ -120,7 +120,7 @@ def instantiate(toks, P, seed, template, effects=False):
     pos = [0]
     names = ["a", "b", "c", "d"]
 
-    chain_mode = "Sacc" in toks
+    chain_mode = "Sacc" in toks or "SK" in toks or "DAv" in toks
     pre_stmts = []
 
     def lst(ind):
@@ -241,6 +241,35 @@ def instantiate(toks, P, seed, template, effects=False):
             op = "<--" if t == "Gidx" else "<=="
             si = pg.stmt({"k": "nop", "x": sname, "e": top, "fx": "sigset", "exported": True, "constrains": t == "Qidx"})
             lines.append((ind, "%s %s %s;" % (sname, op, text), rg, si, len("%s %s " % (sname, op))))
+            return si
+        if t in ("DAv", "Gin", "Rn"):
+            # SemChains.tla, family `dim`
+            if t == "DAv":
+                v = pg.locals_[0]
+                vi = pg.node({"k": "var", "x": v})
+                si = pg.stmt({"k": "nop", "e": vi, "fx": "dim"})
+                lines.append((ind, "var brr[%s];" % v, [(vi, 0, len(v))], si, len("var brr[")))
+                return si
+            if t == "Rn":
+                pg.has_ret = True
+                ni = pg.node({"k": "var", "x": "n"})
+                si = pg.stmt({"k": "ret", "e": ni})
+                lines.append((ind, "return n;", [(ni, 0, 1)], si, len("return ")))
+                return si
+            pg.nsig += 1
+            sname = "o%d" % pg.nsig
+            pg.signals.append((sname, False))
+            gi = pg.node({"k": "sig", "v": 1, "x": "in1"})
+            si = pg.stmt({"k": "nop", "x": sname, "e": gi, "fx": "sigset", "exported": True, "constrains": False})
+            lines.append((ind, "%s <-- in1;" % sname, [(gi, 0, 3)], si, len("%s <-- " % sname)))
+            return si
+        if t == "SK":
+            # SemChains.tla, family `const`: the same constant assigned to the (uninitialised) first local
+            v = pg.locals_[0]
+            ei = pg.node({"k": "num", "v": 3 % P if 3 % P else 2})
+            val = pg.exprs[ei - 1]["v"]
+            si = pg.stmt({"k": "set", "x": v, "e": ei})
+            lines.append((ind, "%s = %d;" % (v, val), [(ei, 0, 1)], si, len("%s = " % v)))
             return si
         if t in ("Sacc", "Gacc", "Qacc", "Racc"):
             # SemChains.tla: the accumulator is the first local; it is updated from itself and used after the nesting chain
@@ -421,6 +450,12 @@ def build_expr(pg, toks, pos, amap, P):
     if t == "un":
         op = toks[pos[0]]
         pos[0] += 1
+        if op == "sq":
+            # a call of the known function sq(x) = x * x (the tool sees an opaque call; the executor knows what it computes)
+            ri, rt, rr = build_expr(pg, toks, pos, amap, P)
+            text = "sq(" + rt + ")"
+            idx = pg.node({"k": "un", "op": "sq", "r": ri})
+            return idx, text, [(j, a + 3, b + 3) for (j, a, b) in rr] + [(idx, 0, len(text))]
         ri, rt, rr = sub()
         text = UNOPS[op] + rt
         idx = pg.node({"k": "un", "op": op, "r": ri})
@@ -664,6 +699,8 @@ def assemble(pg, lines, root, template):
         for (ei, s0, e0) in rg:
             kc = pg.exprs[ei - 1]["k"]
             kc = ("idx" if pg.exprs[ei - 1]["v"] == 3 else "var") if kc == "sig" else kc     # a port `c.o` is exported as an access node
+            if kc == "un" and pg.exprs[ei - 1]["op"] == "sq":
+                kc = "call"
             ranges[(start + off + s0, start + off + e0, kc)] = (si, ei)
         if si:
             end = start + len(t) - (1 if t.endswith(";") else 0)
@@ -675,7 +712,7 @@ def assemble(pg, lines, root, template):
     return text, prog, ranges, stmt_span
 
 
-KCLASS = {"infix": "bin", "prefix": "un", "switch": "tern", "var": "var", "num": "num", "access": "idx"}
+KCLASS = {"infix": "bin", "prefix": "un", "switch": "tern", "var": "var", "num": "num", "access": "idx", "call": "call"}
 
 
 def claims_from(doc, prog, ranges, stmt_span, P, want=("val", "deg")):
@@ -810,11 +847,21 @@ def run_check(prop, tier, want, budgets=False):
     expr_cases = [x["toks"] for x in read_ndjson(eg.cases_path)]
     open(ec, "w").write('SPECIFICATION Spec\nCONSTANTS\n  Deep = TRUE\n  Atoms = {"sa", "sb", "pn", "lv", "k2", "k3"}\n  BinOps = {%s}\n  UnOps = {"prefix_sub", "not", "complement_256"}\n'
                         'INVARIANT Emit\nCHECK_DEADLOCK FALSE\n' % ALLB)
-    ndeep = {"C06": 600, "C07": 600, "C20": 60}[prop] * (1 if tier == "quick" else 6)
+    ndeep = {"C06": 600, "C07": 600, "C20": 60}[prop] * (1 if tier == "quick" else 3)
     eg2 = run_tlc("ExprGen", ec, name, workers=2, cases_suffix="-deep", simulate=ndeep, depth=12, timeout=600)
     deep = [x["toks"] for x in read_ndjson(eg2.cases_path)]
     random.Random(seed).shuffle(deep)
     expr_cases += deep[:ndeep]
+    if prop in ("C07", "C20"):
+        # calls of a known function (sq(x) = x * x) on arguments of every degree, nested, and on arguments of unknown degree
+        calls = [["un", "sq", "atom", a] for a in ("sa", "pn", "lv", "k2")] + \
+                [["un", "sq", "un", "sq", "atom", "sa"], ["un", "sq", "tern", "atom", "sa", "atom", "sa", "atom", "pn"],
+                 ["bin", "mul", "un", "sq", "un", "sq", "atom", "sa", "atom", "sb"], ["bin", "add", "un", "sq", "atom", "sa", "atom", "sb"],
+                 ["un", "sq", "bin", "mul", "atom", "sa", "atom", "sb"], ["un", "sq", "bin", "lesser", "atom", "sa", "atom", "pn"]]
+        expr_cases = calls + expr_cases
+        ndepth1_extra = len(calls)
+    else:
+        ndepth1_extra = 0
     gstates += eg.distinct
     ggen += eg.generated
     total_states = total_gen = 0
@@ -836,7 +883,7 @@ def run_check(prop, tier, want, budgets=False):
                                    (2 if tier == "quick" else 3, "TRUE" if template else "FALSE"))
                 gch = run_tlc("SemChains", cc, name, workers=2, cases_suffix="-ch%s%d" % (template, P), timeout=600)
                 for kk, x in enumerate(read_ndjson(gch.cases_path)):
-                    if x["toks"][0] != "DL":
+                    if x["toks"][0] not in ("DL", "D0"):
                         continue
                     for j in range(inst):
                         text, prog, ranges, span = instantiate(x["toks"], P, seed * 104729 + kk * 7 + j, template)
@@ -844,10 +891,16 @@ def run_check(prop, tier, want, budgets=False):
         # ---- second family: every expression of ExprGen.tla in the data-flow contexts
         ctxs = {"C06": FUNC_CTX, "C07": TEMPL_CTX, "C20": ["f_join", "f_loop", "t_loop", "t_join", "t_array_if", "t_operand_join", "t_array_loop"]}[prop]
         k3 = set()          # programs with three indeterminates (in1, in2 and a component port)
-        ndepth1 = len(expr_cases) - len(deep[:ndeep])
+        ndepth1 = len(expr_cases) - len(deep[:ndeep])       # the handcrafted call expressions come first and count as depth 1
         for j, ec in enumerate(expr_cases):
             # depth-1 expressions go through every context; in the quick tier each sampled deeper one through three of them (rotating)
-            use = ctxs if (j < ndepth1 or tier != "quick" or len(ctxs) <= 3) else [ctxs[(j + d) % len(ctxs)] for d in (0, 1, 3)]
+            # sampled deeper expressions: three contexts each in the quick tier, four in the thorough tier (all of them over F_5 only)
+            if j < ndepth1 or len(ctxs) <= 3:
+                use = ctxs
+            elif tier == "quick":
+                use = [ctxs[(j + d) % len(ctxs)] for d in (0, 1, 3)]
+            else:
+                use = [ctxs[(j + d) % len(ctxs)] for d in (0, 1, 3, 5)] if P == 5 else []
             for ctx in use:
                 if ctx == "t_port" and ((tier == "quick" and (j % 3 or j >= ndepth1)) or (tier != "quick" and (P != 5 or j >= ndepth1))):
                     continue        # three indeterminates: 125-point tables over F_5; quick: every third depth-1 expression, thorough: all depth-1 ones
